@@ -181,9 +181,8 @@ def run(res, tier, seed, model_ok, search):
                 "non-trivial = combined run with orders of at least two strategies / an injection; distinct = scenario index")
     big = tier != "quick" or search
     n_iso, n_inj = (1500, 3000) if big else (60, 150)
-    with mp.Pool(min(16, os.cpu_count() or 4)) as pool:
-        iso = pool.map(_iso_work, [(seed, i) for i in range(n_iso)], chunksize=2)
-        inj = pool.map(_inj_work, [(seed, i) for i in range(n_inj)], chunksize=4)
+    iso = common.pmap(_iso_work, [(seed, i) for i in range(n_iso)], chunksize=2)
+    inj = common.pmap(_inj_work, [(seed, i) for i in range(n_inj)], chunksize=4)
     for o in iso:
         res.evaluations += 1 + o["n"] + 1
         res.distribution["iso:strategies:%d" % o["n"]] += 1
